@@ -9,10 +9,19 @@ AWKWARD = ['(', ')', '[', ']', '{', '}', '<', '>', '&', '"', "'", '/', '|', ',',
 PLAIN = ['John', 'loves', 'Mary', 'the', 'dog', 'runs', 'and', 'cat', 'quickly', 'of', 'Tokyo', 'saw']
 
 
+# pieces that mean something to one format or another (headers, field marks, escapes, entity and bracket characters)
+FRAGMENTS = ['ID=', 'ID', '=', '#', '(<L', '(<T', '<L', '<T', 'log', 'POS', 'XX', '*', '@', '+', '0', '1', 'a', 'B', 'x', '語', 'é', '_', '-', '.',
+             ',', ':', ';', '"', "'", '&', '<', '>', '|', '/', '[', ']', '{', '}', '(', ')', '%', '!', '?', '$', '^', '~', '`', '-RRB-', 'lt;', '&#']
+
+
 def words_for(rng, n, awkward=0.4, exclude=''):
     out = []
     for _ in range(n):
-        w = rng.choice(AWKWARD) if rng.random() < awkward else rng.choice(PLAIN)
+        r = rng.random()
+        if r < awkward * 0.25:
+            w = ''.join(rng.choice(FRAGMENTS) for _ in range(rng.randint(2, 3)))
+        else:
+            w = rng.choice(AWKWARD) if r < awkward else rng.choice(PLAIN)
         if any(ch in w for ch in exclude):
             w = rng.choice(PLAIN)
         out.append(w)
@@ -154,15 +163,27 @@ JA_LABELS = {'binary': [('fa', '>'), ('ba', '<'), ('fc', '>B'), ('bx', '<B1'), (
 
 
 # ------------------------------------------------------------------ real objects
-def build_real(t):
+def build_real(t, shared=None, pos=None):
+    """shared: a list of Token objects to put on the leaves in order (the parser builds the leaves of all n-best trees of a
+    sentence from the same Token objects); None: fresh Token objects"""
     from depccg.tree import Tree
     from depccg.types import Token
+    if pos is None:
+        pos = [0]
     cat = enc.dec_cat(t['cat'])
     if t['k'] == 'L':
+        i = pos[0]
+        pos[0] += 1
+        if shared is not None:
+            while len(shared) <= i:
+                shared.append(None)
+            if shared[i] is None or dict(shared[i]) != t['tok']:
+                shared[i] = Token(**t['tok'])
+            return Tree.make_terminal(shared[i], cat)
         return Tree.make_terminal(Token(**t['tok']), cat)
     if t['k'] == 'U':
-        return Tree.make_unary(cat, build_real(t['kids'][0]), t['lab'], t['sym'])
-    return Tree.make_binary(cat, build_real(t['kids'][0]), build_real(t['kids'][1]), t['lab'], t['sym'], t['hl'])
+        return Tree.make_unary(cat, build_real(t['kids'][0], shared, pos), t['lab'], t['sym'])
+    return Tree.make_binary(cat, build_real(t['kids'][0], shared, pos), build_real(t['kids'][1], shared, pos), t['lab'], t['sym'], t['hl'])
 
 
 def cps(s):
@@ -235,8 +256,10 @@ def real_batch(batch, rng=None):
     for trees in batch:
         sc = 0.0
         lst = []
+        # as in parser output, the n-best trees of a sentence share their Token objects (in two of three batches)
+        shared = [] if (rng is None or rng.random() < 0.67) else None
         for t in trees:
             sc -= 0.125 * (1 + (rng.randrange(8) if rng else 1))
-            lst.append(ScoredTree(tree=build_real(t), score=sc))
+            lst.append(ScoredTree(tree=build_real(t, shared), score=sc))
         out.append(lst)
     return out
